@@ -142,7 +142,11 @@ channel_release(struct channel* self)
 void
 channel_accept_writes(struct channel* self, uint32_t tf)
 {
+    // Take the lock: a writer that has just checked the flag (under the lock)
+    // and is about to wait must not miss this change and its notification.
+    lock_acquire(&self->lock);
     self->is_accepting_writes = tf;
+    lock_release(&self->lock);
     condition_variable_notify_all(&self->notify_space_available);
 }
 
